@@ -10,6 +10,8 @@ use white_whale_std::pool_network::asset::PairType;
 use white_whale_std::pool_network::pair;
 
 pub const ACCTS: [&str; 6] = ["__pool__", "alice", "bob", "carol", "donor", OWNER];
+/// receiver index standing for the pool's own fee collector (a self-referential receiver; the model's swap does not depend on the receiver)
+pub const TO_COLLECTOR: usize = 99;
 pub const MIN_LIQ: u128 = 1000;
 
 #[derive(Clone, Debug)]
@@ -24,7 +26,8 @@ pub enum POp {
     /// ExecuteMsg::WithdrawLiquidity {} with `a` of DENOMS[denom] attached (token-factory LP entry point)
     WithdrawDirect { who: usize, denom: usize, a: u128 },
     BadFundsSwap { who: usize, dir: bool, declared: u128, sent: u128 },
-    BadFundsProvide { who: usize, d0: u128, d1: u128 },
+    /// variant 0: funds one unit short; 1..4: malformed asset list (see PairWorld::provide_malformed). One model operation: always rejected.
+    BadFundsProvide { who: usize, d0: u128, d1: u128, variant: u8 },
     ForeignHookSwap { who: usize, x: u128 },
     TokenViaNativeSwap { who: usize, dir: bool, x: u128 },
 }
@@ -47,7 +50,7 @@ impl POp {
             POp::TransferLp { from, to, a } => format!("TransferLP {}%nat {}%nat {}", from, to, a),
             POp::WithdrawDirect { who, denom, a } => format!("WithdrawDirect {}%nat {}%nat {}", who, denom, a),
             POp::BadFundsSwap { who, dir, declared, sent } => format!("BadFundsSwap {}%nat {} {} {}", who, coqbool(*dir), declared, sent),
-            POp::BadFundsProvide { who, d0, d1 } => format!("BadFundsProvide {}%nat {} {}", who, d0, d1),
+            POp::BadFundsProvide { who, d0, d1, .. } => format!("BadFundsProvide {}%nat {} {}", who, d0, d1),
             POp::ForeignHookSwap { who, x } => format!("ForeignHookSwap {}%nat {}", who, x),
             POp::TokenViaNativeSwap { who, dir, x } => format!("TokenViaNativeSwap {}%nat {} {}", who, coqbool(*dir), x),
         }
@@ -62,7 +65,8 @@ impl POp {
 }
 
 #[derive(Clone, Debug)]
-pub struct PairCase { pub kinds: [bool; 2], pub fees: (u128, u128, u128), pub ops: Vec<POp>, pub fab: bool }
+/// `decs`: the pair's asset_decimals (a constant-product pair must not care; the model has no decimals)
+pub struct PairCase { pub kinds: [bool; 2], pub fees: (u128, u128, u128), pub ops: Vec<POp>, pub fab: bool, pub decs: [u8; 2] }
 
 impl PairCase {
     pub fn coq(&self) -> String {
@@ -70,7 +74,7 @@ impl PairCase {
         format!("(({}, {}), ({}, {}, {}), [{}])", coqbool(self.kinds[0]), coqbool(self.kinds[1]), self.fees.0, self.fees.1, self.fees.2, ops.join("; "))
     }
     pub fn json(&self) -> serde_json::Value {
-        json!({"asset_kinds_cw20": self.kinds, "second_asset_factory_denom": self.fab, "fees_protocol_swap_burn": [self.fees.0.to_string(), self.fees.1.to_string(), self.fees.2.to_string()],
+        json!({"asset_kinds_cw20": self.kinds, "asset_decimals": self.decs, "second_asset_factory_denom": self.fab, "fees_protocol_swap_burn": [self.fees.0.to_string(), self.fees.1.to_string(), self.fees.2.to_string()],
                "accounts": ACCTS, "ops": self.ops.iter().map(|o| format!("{:?}", o)).collect::<Vec<_>>(),
                "machine": self.machine()})
     }
@@ -123,7 +127,7 @@ fn attr(resp: &AppResponse, key: &str) -> Option<u128> {
 
 pub fn exec(w: &mut PairWorld, op: &POp) -> Outcome<AppResponse> {
     let d = |o: &Option<u128>| o.map(dec);
-    let name = |i: usize, w: &PairWorld| -> String { if i == 0 { w.pair.to_string() } else { ACCTS[i].to_string() } };
+    let name = |i: usize, w: &PairWorld| -> String { if i == 0 { w.pair.to_string() } else if i == TO_COLLECTOR { COLLECTOR.to_string() } else { ACCTS[i].to_string() } };
     let r = std::panic::catch_unwind(std::panic::AssertUnwindSafe(|| match op {
         POp::Provide { who, d0, d1, tol, receiver } => { let rc = receiver.map(|r| name(r, w)); let rev = (*d0 ^ *d1) & 1 == 1; w.provide_ext(ACCTS[*who], *d0, *d1, d(tol), rc, rev, None) }
         POp::Withdraw { who, a } => w.withdraw(ACCTS[*who], *a),
@@ -150,9 +154,11 @@ pub fn exec(w: &mut PairWorld, op: &POp) -> Outcome<AppResponse> {
             cw_multi_test::Executor::execute_contract(&mut w.app, cosmwasm_std::Addr::unchecked(ACCTS[*who]), pair,
                 &pair::ExecuteMsg::Swap { offer_asset: white_whale_std::pool_network::asset::Asset { info: w.assets[i].clone(), amount: Uint128::new(*declared) }, belief_price: None, max_spread: Some(dec(DEC / 2)), to: None }, &funds)
         }
-        POp::BadFundsProvide { who, d0, d1 } => {
-            // attach one unit less than declared for every native asset
-            w.provide_ext(ACCTS[*who], *d0, *d1, None, None, false, Some((d0.saturating_sub(1), d1.saturating_sub(1))))
+        POp::BadFundsProvide { who, d0, d1, variant } => {
+            if *variant == 0 {
+                // attach one unit less than declared for every native asset
+                w.provide_ext(ACCTS[*who], *d0, *d1, None, None, false, Some((d0.saturating_sub(1), d1.saturating_sub(1))))
+            } else { w.provide_malformed(ACCTS[*who], *variant, *d0, *d1) }
         }
         POp::ForeignHookSwap { who, x } => {
             let f = w.foreign.clone(); let pair = w.pair.to_string();
@@ -174,6 +180,8 @@ pub fn exec(w: &mut PairWorld, op: &POp) -> Outcome<AppResponse> {
     match r {
         Ok(Ok(resp)) => Outcome::Ok(resp),
         Ok(Err(e)) => Outcome::Err(classify_text(&format!("{:#}", e))),
+        // a malformed asset list aborts the contract (`expect`) today; how it is refused is not the property's concern
+        Err(_) if matches!(op, POp::BadFundsProvide { variant, .. } if *variant > 0) => Outcome::Err(E_OTHER),
         Err(_) => Outcome::Panic("panic".into()),
     }
 }
@@ -184,19 +192,29 @@ pub struct CaseResult { pub obs: Vec<String>, pub ok_ops: usize, pub kinds_ok: s
 
 /// run one case on the real contracts; `prop` selects which property's monitors are active
 pub fn run_case(out: &mut Out, prop: &str, case: &PairCase) -> Option<CaseResult> {
-    let mut w = deploy_pair_ext(case.kinds, [6, 6], pool_fee(case.fees.0, case.fees.1, case.fees.2), PairType::ConstantProduct, case.fab).ok()?;
+    let mut w = deploy_pair_ext(case.kinds, case.decs, pool_fee(case.fees.0, case.fees.1, case.fees.2), PairType::ConstantProduct, case.fab).ok()?;
     let mut obs: Vec<String> = vec![];
     let mut prev = snap(&w);
     let mut fees = case.fees;
     let mut first_deposit_done = false;
     let mut last_provide: Option<(usize, u128, u128, u128)> = None; // who, d0, d1, minted
+    let mut col_in = [0u128; 2];       // swap proceeds received by the fee collector as a swap receiver, per asset
     let mut res = CaseResult { obs: vec![], ok_ops: 0, kinds_ok: Default::default(), had_remainder: false };
     let replay = |k: usize, what: &str| json!({"case": case.json(), "failing_op_index": k, "detail": what});
     for (k, op) in case.ops.iter().enumerate() {
         // quote before a swap (C14)
         let sim = if let POp::Swap { dir, x, .. } = op { Some(w.simulate(*dir as usize, *x)) } else { None };
         let r = exec(&mut w, op);
-        let cur = snap(&w);
+        let mut cur = snap(&w);
+        // `col` = what the collector received FROM COLLECTIONS: swap proceeds addressed to the collector are kept apart
+        for i in 0..2 { cur.col[i] -= col_in[i]; }
+        let mut to_collector = 0u128;
+        let mut to_coll = [0u128; 2];
+        if let (Outcome::Ok(_), POp::Swap { dir, to: Some(TO_COLLECTOR), .. }) = (&r, op) {
+            let ai = if *dir { 0 } else { 1 };
+            to_collector = cur.col[ai] - prev.col[ai];
+            col_in[ai] += to_collector; cur.col[ai] -= to_collector; to_coll[ai] = to_collector;
+        }
         out.count(&format!("op:{}:{}", op.kind(), match &r { Outcome::Ok(_) => "ok".to_string(), Outcome::Err(c) => format!("err{}", c), Outcome::Panic(_) => "panic".into() }));
         match &r {
             Outcome::Ok(resp) => {
@@ -216,7 +234,7 @@ pub fn run_case(out: &mut Out, prop: &str, case: &PairCase) -> Option<CaseResult
                     POp::Swap { who, dir, to, .. } => {
                         let rc = to.unwrap_or(*who);
                         let ai = if *dir { 0 } else { 1 };
-                        pay[3] = if rc == 0 { 0 } else { cur.users[rc - 1][ai].wrapping_sub(prev.users[rc - 1][ai]) };
+                        pay[3] = if rc == 0 { 0 } else if rc == TO_COLLECTOR { to_collector } else { cur.users[rc - 1][ai].wrapping_sub(prev.users[rc - 1][ai]) };
                         if rc == 0 { pay[3] = attr(resp, "return_amount").unwrap_or(0); }
                         pay[4] = attr(resp, "spread_amount").unwrap_or(u128::MAX);
                         pay[5] = attr(resp, "swap_fee_amount").unwrap_or(u128::MAX);
@@ -280,7 +298,7 @@ pub fn run_case(out: &mut Out, prop: &str, case: &PairCase) -> Option<CaseResult
                         if cur.alltime[i] != prev.alltime[i] + charged[i] { out.monitor_fail("C07", "all-time collected counter != sum of charges", replay(k, "all-time collected")); }
                         if cur.burned[i] != prev.burned[i] + burned[i] { out.monitor_fail("C07", "all-time burned counter != sum of burn charges", replay(k, "all-time burned")); }
                         // burned amounts leave circulation; nothing else appears or disappears
-                        if cur.total(i) + Uint256::from(burned[i]) != prev.total(i) { out.monitor_fail("C07", "circulating amount changed by something other than the burn fee", replay(k, "conservation")); }
+                        if cur.total(i) + Uint256::from(burned[i]) + Uint256::from(to_coll[i]) != prev.total(i) { out.monitor_fail("C07", "circulating amount changed by something other than the burn fee", replay(k, "conservation")); }
                         if !matches!(op, POp::Collect { .. }) && sent != 0 { out.monitor_fail("C07", "collector received funds outside a collection", replay(k, "collector")); }
                     }
                     if let POp::Collect { .. } = op {
@@ -413,7 +431,7 @@ pub fn gen_case(rng: &mut Rng, len: usize, bias: &Bias) -> PairCase {
                 let p = (Uint256::from(o.max(1)) * Uint256::from(DEC) / Uint256::from(a.max(1))).to_string().parse::<u128>().unwrap_or(DEC);
                 Some(match rng.below(5) { 0 => 0, 1 => p, 2 => p / 2 + 1, 3 => p.saturating_mul(2), _ => p.saturating_add(p / 100) })
             } else { None };
-            let to = if rng.chance(1, 6) { Some(1 + rng.below(4) as usize) } else { None };
+            let to = if rng.chance(1, 6) { Some(1 + rng.below(4) as usize) } else if rng.chance(1, 12) { Some(TO_COLLECTOR) } else { None };
             POp::Swap { who, dir, x, belief, max_spread, to }
         } else if choice < 88 { POp::Collect { who: 1 + rng.below(5) as usize }
         } else if choice < 93 {
@@ -422,13 +440,16 @@ pub fn gen_case(rng: &mut Rng, len: usize, bias: &Bias) -> PairCase {
             let fv = !rng.chance(1, 6); let new_fees = if rng.chance(2, 3) { Some(fee_triple(rng, fv)) } else { None };
             let toggles = if bias.toggles || rng.chance(1, 4) { Some((rng.chance(3, 4), rng.chance(3, 4), rng.chance(3, 4))) } else { None };
             POp::UpdateConfig { who: sender, new_owner, new_fees, toggles }
-        } else if choice < 97 { POp::Donate { i: rng.chance(1, 2), z: magnitude(rng, 90) }
-        } else if choice < 98 && rng.chance(1, 2) {
+        } else if choice < 95 { POp::Donate { i: rng.chance(1, 2), z: magnitude(rng, 90) }
+        } else if choice < 98 && rng.chance(3, 4) {
             // malformed entries (must be rejected and change nothing)
             let dirn = rng.chance(1, 2);
-            match rng.below(4) {
+            match rng.below(6) {
+                4 | 5 => { let small = rng.chance(1, 2);
+                           let d = if small { 1000 + rng.below128(100_000) } else { magnitude(rng, 60).max(1) };
+                           POp::BadFundsProvide { who, d0: d, d1: if rng.chance(1, 2) { d } else { 1 + rng.below128(d.max(2)) }, variant: 1 + rng.below(4) as u8 } }
                 0 if !kinds[dirn as usize] => { let d = 1000 + rng.below128(1_000_000); POp::BadFundsSwap { who, dir: dirn, declared: d, sent: if rng.chance(1, 2) { d - 1 } else { d + 1 } } }
-                1 if !kinds[0] || !kinds[1] => POp::BadFundsProvide { who, d0: 1000 + rng.below128(100_000), d1: 1000 + rng.below128(100_000) },
+                1 if !kinds[0] || !kinds[1] => POp::BadFundsProvide { who, d0: 1000 + rng.below128(100_000), d1: 1000 + rng.below128(100_000), variant: 0 },
                 2 => POp::ForeignHookSwap { who, x: rng.below128(1_000_000) },
                 _ => POp::TokenViaNativeSwap { who, dir: dirn, x: rng.below128(1_000_000) },
             }
@@ -462,12 +483,13 @@ pub fn gen_case(rng: &mut Rng, len: usize, bias: &Bias) -> PairCase {
         ops.push(op);
     }
     let fab = !kinds[1] && rng.chance(1, 4);
-    PairCase { kinds, fees, ops, fab }
+    let decs = *rng.pick(&[[6u8, 6u8], [6, 6], [6, 8], [18, 6], [8, 6], [6, 18]]);
+    PairCase { kinds, fees, ops, fab, decs }
 }
 
 /// after generation: insert "withdraw exactly what was just minted" ops using a dry run on the real contracts
 pub fn add_deposit_withdraw_pairs(rng: &mut Rng, case: &mut PairCase) {
-    let mut w = match deploy_pair_ext(case.kinds, [6, 6], pool_fee(case.fees.0, case.fees.1, case.fees.2), PairType::ConstantProduct, case.fab) { Ok(w) => w, Err(_) => return };
+    let mut w = match deploy_pair_ext(case.kinds, case.decs, pool_fee(case.fees.0, case.fees.1, case.fees.2), PairType::ConstantProduct, case.fab) { Ok(w) => w, Err(_) => return };
     let mut new_ops = vec![];
     for op in case.ops.clone() {
         let before: Vec<u128> = (1..6).map(|i| w.lp_bal(ACCTS[i])).collect();
@@ -540,11 +562,11 @@ impl PairCase {
             POp::TransferLp { from, to, a } => json!(["transfer_lp", from, to, a.to_string()]),
             POp::WithdrawDirect { who, denom, a } => json!(["withdraw_direct", who, denom, a.to_string()]),
             POp::BadFundsSwap { who, dir, declared, sent } => json!(["bad_funds_swap", who, dir, declared.to_string(), sent.to_string()]),
-            POp::BadFundsProvide { who, d0, d1 } => json!(["bad_funds_provide", who, d0.to_string(), d1.to_string()]),
+            POp::BadFundsProvide { who, d0, d1, variant } => json!(["bad_funds_provide", who, d0.to_string(), d1.to_string(), variant]),
             POp::ForeignHookSwap { who, x } => json!(["foreign_hook_swap", who, x.to_string()]),
             POp::TokenViaNativeSwap { who, dir, x } => json!(["token_via_native_swap", who, dir, x.to_string()]),
         }).collect();
-        json!({"kinds": self.kinds, "fab": self.fab, "fees": [self.fees.0.to_string(), self.fees.1.to_string(), self.fees.2.to_string()], "ops": ops})
+        json!({"kinds": self.kinds, "fab": self.fab, "decs": self.decs, "fees": [self.fees.0.to_string(), self.fees.1.to_string(), self.fees.2.to_string()], "ops": ops})
     }
     pub fn from_machine(v: &serde_json::Value) -> Option<PairCase> {
         let kinds = [v["kinds"][0].as_bool()?, v["kinds"][1].as_bool()?];
@@ -564,13 +586,14 @@ impl PairCase {
                 "transfer_lp" => POp::TransferLp { from: u(1)?, to: u(2)?, a: ps(&o[3])? },
                 "withdraw_direct" => POp::WithdrawDirect { who: u(1)?, denom: u(2)?, a: ps(&o[3])? },
                 "bad_funds_swap" => POp::BadFundsSwap { who: u(1)?, dir: o[2].as_bool()?, declared: ps(&o[3])?, sent: ps(&o[4])? },
-                "bad_funds_provide" => POp::BadFundsProvide { who: u(1)?, d0: ps(&o[2])?, d1: ps(&o[3])? },
+                "bad_funds_provide" => POp::BadFundsProvide { who: u(1)?, d0: ps(&o[2])?, d1: ps(&o[3])?, variant: o.get(4).and_then(|v| v.as_u64()).unwrap_or(0) as u8 },
                 "foreign_hook_swap" => POp::ForeignHookSwap { who: u(1)?, x: ps(&o[2])? },
                 "token_via_native_swap" => POp::TokenViaNativeSwap { who: u(1)?, dir: o[2].as_bool()?, x: ps(&o[3])? },
                 _ => return None,
             });
         }
-        Some(PairCase { kinds, fees, ops, fab: v["fab"].as_bool().unwrap_or(false) })
+        let decs = match v["decs"].as_array() { Some(a) if a.len() == 2 => [a[0].as_u64().unwrap_or(6) as u8, a[1].as_u64().unwrap_or(6) as u8], _ => [6, 6] };
+        Some(PairCase { kinds, fees, ops, fab: v["fab"].as_bool().unwrap_or(false), decs })
     }
 }
 
@@ -582,7 +605,7 @@ pub fn threshold_corpus() -> Vec<PairCase> {
             // pool 1e12/1e12, protocol fee 0.1 %: gross in [t*1000, t*1000+999] gives a protocol fee of exactly t
             let x = t * 1000 + 500 + t; // gross = x - x^2/(1e12+x) ~ x - 1
             let ms = Some(DEC / 2);
-            v.push(PairCase { kinds, fab: !kinds[1] && t == 1001, fees: (DEC / 1000, 3 * DEC / 1000, DEC / 500), ops: vec![
+            v.push(PairCase { kinds, fab: !kinds[1] && t == 1001, decs: [6, 6], fees: (DEC / 1000, 3 * DEC / 1000, DEC / 500), ops: vec![
                 POp::Provide { who: 1, d0: 1_000_000_000_000, d1: 1_000_000_000_000, tol: None, receiver: None },
                 POp::Swap { who: 2, dir, x, belief: None, max_spread: ms, to: None },
                 POp::Collect { who: 3 },
